@@ -7,8 +7,11 @@ dst = f"/verif/seeded/{sid}"
 os.makedirs(dst + "/demo", exist_ok=True)
 shutil.copy(out + "/patch.diff", dst + "/patch.diff")
 for f in os.listdir(out + "/demo"):
-    if f.endswith((".rs", ".md", ".txt")):
-        shutil.copy(os.path.join(out, "demo", f), dst + "/demo/" + f)
+    p = os.path.join(out, "demo", f)
+    if os.path.isdir(p):
+        shutil.copytree(p, dst + "/demo/" + f, dirs_exist_ok=True, ignore=shutil.ignore_patterns("target", "Cargo.lock"))
+    elif f.endswith((".rs", ".md", ".txt", ".log")):
+        shutil.copy(p, dst + "/demo/" + f)
 m = json.load(open(out + "/meta.json"))
 conf = open(out + "/confirm.txt").read() if os.path.exists(out + "/confirm.txt") else ""
 meta = {
